@@ -88,7 +88,7 @@ def top_level_signals(top):
   return {repr(x): x._dsl.Type.nbits for x in top._dsl.all_signals if x.is_top_level_signal()}
 
 
-def check_dump(text, sigs, snaps, init_snap, eq, ncycles, textwave=None, clk_members=('s.clk',)):
+def check_dump(text, sigs, snaps, init_snap, eq, ncycles, textwave=None, clk_members=('s.clk',), same_net=None):
   """compare the dump with the snapshots.  eq(a, b, what) must raise/return a message when the two values can differ.
   snaps[c][name] = value of the signal in cycle c (int or z3 term).  returns the first problem or None"""
   try:
@@ -107,6 +107,11 @@ def check_dump(text, sigs, snaps, init_snap, eq, ncycles, textwave=None, clk_mem
   if extra: return f"the dump declares signals the design does not have: {extra[:4]}"
   for n, (width, sym) in sorted(names.items()):
     if width != sigs[n]: return f"{n} is declared {width} bits wide, the signal has {sigs[n]}"
+  if same_net is not None:
+    by_sym = {}
+    for n, (width, sym) in sorted(names.items()):
+      if sym in by_sym and not same_net(n, by_sym[sym]): return f"{n} and {by_sym[sym]} share the identifier {sym!r} although they are different nets"
+      by_sym.setdefault(sym, n)
   clk = names['s.clk'][1]
   want = [(50 * i, 1 - (i % 2)) for i in range(2 * ncycles + 1)]
   got = [(t, v[1]) for t, v in hist.get(clk, []) if v[0] == 'const']
@@ -138,7 +143,14 @@ def _design(name):
   return VD.DESIGNS[name]()
 
 
-def _inputs_of(top):
+def _inputs_of(top, name=None):
+  from pymtl3.dsl import InPort
+  from corpus import vcd_designs as VD
+  only = VD.SYMBOLIC_PORTS.get(name or type(top).__name__)
+  return sorted(p for p in _all_inputs(top) if only is None or p[0] in only)
+
+
+def _all_inputs(top):
   from pymtl3.dsl import InPort
   return sorted((repr(x), x._dsl.Type.nbits) for x in top._dsl.all_signals
                 if isinstance(x, InPort) and x.is_top_level_signal() and x.get_host_component() is top and repr(x) not in ('s.clk', 's.reset'))
@@ -177,7 +189,7 @@ def concrete_run(name, inputs):
     if av != b: return f"design {name}, inputs {inputs}: {what} is {av:#x} in the dump, the simulator held {b:#x}"
   clk_obj = eval('s.clk', {'s': top})
   members = {n for n in sigs if eval(n, {'s': top}) is clk_obj}
-  return check_dump(text, sigs, snaps, init_snap, eq, len(inputs), tw, members)
+  return check_dump(text, sigs, snaps, init_snap, eq, len(inputs), tw, members, lambda a, b: eval(a, {'s': top}) is eval(b, {'s': top}))
 
 
 def is_struct(T):
@@ -235,7 +247,8 @@ def item(it):
     text = MemFile.files[fn + '.vcd'].text()
     tw = {n: list(v) for n, v in top.get_metadata(PrintTextWavePass.textwave_dict).items()}
     members = {n for n in sigs if sim.sig_value[n] is sim.sig_value['s.clk']}
-    return text, sigs, snaps, init_snap, tw, list(SymStr.reg), members
+    same = {n: id(sim.sig_value[n]) for n in sigs}
+    return text, sigs, snaps, init_snap, tw, list(SymStr.reg), members, same
 
   def leaf(pc, out, exc):
     rec = dict(obligations=1, discharged=0, violations=[], inconclusive=[], decisions=len(pc))
@@ -248,7 +261,7 @@ def item(it):
       rec['violations'].append(dict(key=f"vcd:{name}:raises {type(exc).__name__}", what=f"{res['name']}: simulation with waveform dumping raised {type(exc).__name__}: {str(exc)[:200]}",
                                     replay=REPLAY % dict(name=name, inputs=model_inputs() or [])))
       return rec
-    text, sigs, snaps, init_snap, tw, reg, members = out
+    text, sigs, snaps, init_snap, tw, reg, members, same = out
     bad = []
 
     def term_of(a, width):
@@ -268,11 +281,14 @@ def item(it):
       if t is None:
         bad.append((what + ": wrong number of digits", ())); return what
       b = b if z3.is_expr(b) else z3.BitVecVal(b, width)
-      v, m = prove(pc, t == b)
+      g = z3.simplify(t == b)
+      if z3.is_true(g):                      # syntactically the same value: nothing to ask the solver
+        rec['discharged'] += 1; return None
+      v, m = prove(pc, g)
       if v == 'unsat': rec['discharged'] += 1; return None
       if v == 'sat': bad.append((what + " differs from the value the simulator held", (t != b,))); return what
       rec['inconclusive'].append(f"{what}: solver unknown"); return None
-    msg = check_dump(text, sigs, snaps, init_snap, eq, K, tw, members)
+    msg = check_dump(text, sigs, snaps, init_snap, eq, K, tw, members, lambda a, b: same[a] == same[b])
     if msg is None: rec['discharged'] += 1
     else:
       extra = bad[-1][1] if bad else ()
